@@ -231,6 +231,22 @@ theorem verify_cert_uses_configured_name :
       [("_server_name", ["__init__"]), ("_cadata", ["__init__"]), ("_cafile", ["__init__"]),
        ("_capath", ["__init__"]), ("_verify_mode", ["__init__"])] := ⟨rfl, rfl⟩
 
+/-- "... a certificate that VALIDATES ...": the trust anchors of `verify_certificate` are
+    only configured CA material — the certifi bundle when nothing is configured, the
+    certificates of `cadata`, the locations `cafile` / `capath` — and nothing else is ever
+    added to the X509 store; the peer's certificate is the one being verified and the
+    peer's `chain` is handed to the store context as UNTRUSTED intermediates only.  So a
+    certificate the server sends can never become a trust anchor (every use of the store,
+    with its enclosing conditions, extracted from tls.py; the store is not passed to any
+    other function — the extractor refuses that). -/
+theorem trust_store_only_configured : verifyCertStore = [
+      ("", "crypto.X509Store()"),
+      ("if cadata is None and cafile is None and (capath is None)", "store.load_locations(certifi.where())"),
+      ("if cadata is not None ; for cert in load_pem_x509_certificates(cadata)", "store.add_cert(crypto.X509.from_cryptography(cert))"),
+      ("if cafile is not None or capath is not None", "store.load_locations(cafile, capath)"),
+      ("", "crypto.X509StoreContext(store, crypto.X509.from_cryptography(certificate), [crypto.X509.from_cryptography(cert) for cert in chain])"),
+      ("", "store_ctx.verify_certificate()")] := rfl
+
 /-- the authentication values are the ones of RFC 8446 §4.4 (data flow extracted from tls.py):
 
     * §4.4.3 CertificateVerify: the signature field of the message is verified with the public
@@ -455,6 +471,7 @@ end AQ.Props.C03
 #print axioms AQ.Props.C03.client_complete_authentic
 #print axioms AQ.Props.C03.verify_cert_uses_configured_name
 #print axioms AQ.Props.C03.auth_values_are_rfc
+#print axioms AQ.Props.C03.trust_store_only_configured
 #print axioms AQ.Props.C03.negotiation_first
 #print axioms AQ.Props.C03.agreement_partial
 #print axioms AQ.Props.C03.byte_flip_blocks_partial
